@@ -457,23 +457,94 @@ Proof.
     rewrite nget_nset, path_eqb_sym, E. reflexivity.
 Qed.
 
-Lemma nget_dir_sync d dd q :
+Lemma pwrites_filter_keep (f : pop -> bool) l :
+  (forall o, is_pwrite o = true -> f o = true) -> pwrites (filter f l) = pwrites l.
+Proof.
+  intro H. unfold pwrites. induction l as [|o l IH]; cbn; [reflexivity|].
+  destruct (f o) eqn:Ef; cbn; destruct (is_pwrite o) eqn:Ep; rewrite ?IH; try reflexivity.
+  rewrite (H o Ep) in Ef. discriminate.
+Qed.
+
+Lemma nodup_filter_keys {B} (f : path * B -> bool) : forall m, NoDup (map fst m) -> NoDup (map fst (filter f m)).
+Proof.
+  induction m as [|x m IH]; cbn; intro H; [constructor|]. inversion H; subst.
+  destruct (f x); cbn; [|apply IH; assumption]. constructor; [|apply IH; assumption].
+  intro Hin. apply in_map_iff in Hin as (y & Hy & Hin). apply filter_In in Hin as [Hin _].
+  apply H2. apply in_map_iff. exists y. split; assumption.
+Qed.
+
+Lemma nodup_nset m p e : NoDup (map fst m) -> NoDup (map fst (nset m p e)).
+Proof.
+  intro H. unfold nset. cbn [map fst]. constructor.
+  - intro Hin. unfold ndel in Hin. apply in_map_iff in Hin as ([q x] & Hq & Hin). cbn in Hq. subst q.
+    apply filter_In in Hin as [_ Hf]. cbn in Hf. rewrite path_eqb_refl in Hf. discriminate.
+  - apply nodup_filter_keys. exact H.
+Qed.
+
+Lemma nodup_fold_kids (nm : list (path * entry)) : forall l m, NoDup (map fst m) ->
+  NoDup (map fst (fold_left (fun m q => match nget nm q with Some e => nset m q e | None => m end) l m)).
+Proof.
+  induction l as [|q l IH]; intros m H; cbn [fold_left]; [exact H|].
+  apply IH. destruct (nget nm q); [apply nodup_nset|]; exact H.
+Qed.
+
+Lemma nget_filter_nodup (f : path * entry -> bool) : forall m q, NoDup (map fst m) ->
+  nget (filter f m) q = match nget m q with Some e => if f (q, e) then Some e else None | None => None end.
+Proof.
+  induction m as [|[r e] m IH]; intros q Hnd; cbn; [reflexivity|].
+  cbn [map fst] in Hnd. inversion Hnd; subst.
+  destruct (f (r, e)) eqn:Ef; cbn.
+  - destruct (path_eqb r q) eqn:E; [apply path_eqb_eq in E; subst; rewrite Ef; reflexivity|apply IH; assumption].
+  - rewrite IH by assumption. destruct (path_eqb r q) eqn:E; [|reflexivity].
+    apply path_eqb_eq in E. subst r. rewrite Ef.
+    destruct (nget m q) as [e'|] eqn:En; [|reflexivity]. exfalso. apply H1.
+    apply nget_In in En. apply in_map_iff. exists (q, e'). split; [reflexivity|exact En].
+Qed.
+
+(* the durable entries after dir_sync, in general *)
+Lemma nget_dir_sync d dd q : NoDup (map fst (dents d)) ->
   nget (dents (dir_sync d dd)) q =
   if child_of q dd then nget (names (dw d)) q
-  else if path_eqb q dd then Some EDir else nget (dents d) q.
+  else if path_eqb q dd then Some EDir
+  else match nget (dents d) q with
+       | Some e => if taken (dw d) dd (q, e) then None else Some e
+       | None => None
+       end.
 Proof.
-  unfold dir_sync. cbn [dents]. rewrite nget_fold_kids.
+  intro Hnd. unfold dir_sync. cbn [dents]. rewrite nget_fold_kids.
   destruct (mem_path q (children (dw d) dd)) eqn:Em.
   - apply mem_path_In in Em. apply in_children in Em as [Hc Hn]. rewrite Hc.
     destruct (nget (names (dw d)) q); [reflexivity|congruence].
   - rewrite nget_nset, path_eqb_sym.
     destruct (path_eqb q dd) eqn:Eqd.
     + apply path_eqb_eq in Eqd. subst q. rewrite child_of_irrefl. reflexivity.
-    + rewrite (nget_filter_key (fun r => negb (child_of r dd) || match nget (names (dw d)) r with Some _ => true | None => false end)).
-      destruct (child_of q dd) eqn:Ec; cbn [negb orb]; [|reflexivity].
-      destruct (nget (names (dw d)) q) eqn:En; [|reflexivity].
-      exfalso. assert (In q (children (dw d) dd)) by (apply in_children; split; [exact Ec|congruence]).
-      apply mem_path_In in H. congruence.
+    + rewrite (nget_filter_nodup (fun x => negb (taken (dw d) dd x)))
+        by (apply nodup_filter_keys; exact Hnd).
+      rewrite (nget_filter_key (fun r => negb (child_of r dd) || match nget (names (dw d)) r with Some _ => true | None => false end)).
+      destruct (child_of q dd) eqn:Ec; cbn [negb orb].
+      * destruct (nget (names (dw d)) q) eqn:En; [|reflexivity].
+        exfalso. assert (In q (children (dw d) dd)) by (apply in_children; split; [exact Ec|congruence]).
+        apply mem_path_In in H. congruence.
+      * destruct (nget (dents d) q) as [e|]; [|reflexivity]. destruct (taken (dw d) dd (q, e)); reflexivity.
+Qed.
+
+(* without a durable name that another current name of the same inode would displace *)
+Lemma nget_dir_sync_nr d dd q : NoDup (map fst (dents d)) ->
+  (forall p r i, nget (dents d) r = Some (EFile i) -> nget (names (dw d)) p = Some (EFile i) -> r = p) ->
+  nget (dents (dir_sync d dd)) q =
+  if child_of q dd then nget (names (dw d)) q
+  else if path_eqb q dd then Some EDir else nget (dents d) q.
+Proof.
+  intros Hnd Hu. rewrite nget_dir_sync by exact Hnd.
+  destruct (child_of q dd); [reflexivity|]. destruct (path_eqb q dd); [reflexivity|].
+  destruct (nget (dents d) q) as [[|i]|] eqn:Ed; try reflexivity.
+  assert (Ht : taken (dw d) dd (q, EFile i) = false); [|rewrite Ht; reflexivity].
+  unfold taken. cbn [snd fst].
+  destruct (existsb _ (children (dw d) dd)) eqn:Ee; [|reflexivity]. exfalso.
+  apply existsb_exists in Ee as (k & _ & Hk). apply andb_true_iff in Hk as [Hne Hk].
+  destruct (nget (names (dw d)) k) as [[|j]|] eqn:Ek; try discriminate.
+  apply N.eqb_eq in Hk. subst j. assert (q = k) by (eapply Hu; eauto). subst k.
+  rewrite path_eqb_refl in Hne. discriminate.
 Qed.
 
 (* folds over a list that holds no removal of q *)
@@ -602,37 +673,6 @@ Proof.
   rewrite X. reflexivity.
 Qed.
 
-Lemma pwrites_filter_keep (f : pop -> bool) l :
-  (forall o, is_pwrite o = true -> f o = true) -> pwrites (filter f l) = pwrites l.
-Proof.
-  intro H. unfold pwrites. induction l as [|o l IH]; cbn; [reflexivity|].
-  destruct (f o) eqn:Ef; cbn; destruct (is_pwrite o) eqn:Ep; rewrite ?IH; try reflexivity.
-  rewrite (H o Ep) in Ef. discriminate.
-Qed.
-
-Lemma nodup_filter_keys {B} (f : path * B -> bool) : forall m, NoDup (map fst m) -> NoDup (map fst (filter f m)).
-Proof.
-  induction m as [|x m IH]; cbn; intro H; [constructor|]. inversion H; subst.
-  destruct (f x); cbn; [|apply IH; assumption]. constructor; [|apply IH; assumption].
-  intro Hin. apply in_map_iff in Hin as (y & Hy & Hin). apply filter_In in Hin as [Hin _].
-  apply H2. apply in_map_iff. exists y. split; assumption.
-Qed.
-
-Lemma nodup_nset m p e : NoDup (map fst m) -> NoDup (map fst (nset m p e)).
-Proof.
-  intro H. unfold nset. cbn [map fst]. constructor.
-  - intro Hin. unfold ndel in Hin. apply in_map_iff in Hin as ([q x] & Hq & Hin). cbn in Hq. subst q.
-    apply filter_In in Hin as [_ Hf]. cbn in Hf. rewrite path_eqb_refl in Hf. discriminate.
-  - apply nodup_filter_keys. exact H.
-Qed.
-
-Lemma nodup_fold_kids (nm : list (path * entry)) : forall l m, NoDup (map fst m) ->
-  NoDup (map fst (fold_left (fun m q => match nget nm q with Some e => nset m q e | None => m end) l m)).
-Proof.
-  induction l as [|q l IH]; intros m H; cbn [fold_left]; [exact H|].
-  apply IH. destruct (nget nm q); [apply nodup_nset|]; exact H.
-Qed.
-
 (* membership in the synced set after one flushed op, for every kind of op *)
 Definition sy_step (dd q : path) (b : bool) (o : pop) : bool :=
   match o with
@@ -717,6 +757,7 @@ Lemma Dur_sync_dir s d g gd dd :
 Proof.
   intros HI HD Hdd. pose proof HD as [A Ap And B C D E F G Gd G2 H I J K L M N O P Q R].
   pose proof HI as [iA iB iC iD iE iF iG iH iI iJ].
+  assert (NDS := fun q => nget_dir_sync_nr d dd q And J).
   set (t := dw d) in *.
   assert (Hex : dir_exists s dd = true) by (rewrite iC; apply is_dir_iff; exact Hdd).
   destruct (sync_dir_views s dd iA Hex) as (_ & V1 & V2 & V3 & V4 & V5 & V6 & V7).
@@ -875,10 +916,10 @@ Proof.
     { intros q Hc Hq Hdq Hdp Hcp. assert (p0 = q) by (eapply K; eauto). subst q. congruence. }
     assert (Hall : (nget (dents d) p0 = Some (EFile i0) /\ child_of p0 dd = true) \/ (forall q, nget (dents d) q <> Some (EFile i0)) ->
               forall q, nget (dents (dir_sync d dd)) q <> Some (EFile i0)).
-    { intros Hcase q. rewrite nget_dir_sync. fold t. destruct (child_of q dd) eqn:Hcq; [apply Y2|].
+    { intros Hcase q. rewrite NDS. fold t. destruct (child_of q dd) eqn:Hcq; [apply Y2|].
       destruct (path_eqb q dd) eqn:Hqd; [discriminate|].
       destruct Hcase as [[Hdp Hcp]|Hno]; [|apply Hno]. intro Hdq. eapply Hother_q; eauto. }
-    rewrite nget_dir_sync. fold t.
+    rewrite NDS. fold t.
     destruct (child_of p0 dd) eqn:Hcp.
     + right. split; [apply Hgn; exact Y1|]. apply Hall.
       destruct Y3 as [Z|[_ Z]]; [left; split; [exact Z|reflexivity]|right; exact Z].
@@ -886,15 +927,15 @@ Proof.
       * apply path_eqb_eq in Hpd. subst p0. rewrite (Hgn dd Y1) in Hdd. discriminate.
       * destruct Y3 as [Z|[Z1 Z2]]; [left; exact Z|right]. split; [exact Z1|]. apply Hall. right. exact Z2.
   - (* du_nodup *)
-    unfold dir_sync. cbn [dents]. apply nodup_fold_kids. apply nodup_nset. apply nodup_filter_keys. exact And.
+    unfold dir_sync. cbn [dents]. apply nodup_fold_kids. apply nodup_nset. apply nodup_filter_keys. apply nodup_filter_keys. exact And.
   - (* du_sy *)
-    intro q. rewrite nget_dir_sync. fold t. destruct (child_of q dd) eqn:Hc.
+    intro q. rewrite NDS. fold t. destruct (child_of q dd) eqn:Hc.
     + apply Wsy_child. exact Hc.
     + destruct (path_eqb q dd) eqn:Hq.
       * apply path_eqb_eq in Hq. subst q. exact Wsy_own.
       * rewrite Wsy_other by assumption. apply B.
   - (* du_df *)
-    intros q i. rewrite nget_dir_sync. fold t. destruct (child_of q dd) eqn:Hc.
+    intros q i. rewrite NDS. fold t. destruct (child_of q dd) eqn:Hc.
     + intro Hn.
       assert (Hq : mem_path q g = false).
       { destruct (mem_path q g) eqn:E0; [|reflexivity]. rewrite (Hgn q E0) in Hn. discriminate. }
@@ -907,7 +948,7 @@ Proof.
       intro Hin. apply Hfl_in in Hin as [Hin _]. apply (Hnorm q Hq). exact Hin.
     + destruct (path_eqb q dd); [discriminate|]. intro Hn. rewrite Wpf_other by exact Hc. apply C. exact Hn.
   - (* du_dd *)
-    intros q. rewrite nget_dir_sync. fold t. destruct (child_of q dd) eqn:Hc.
+    intros q. rewrite NDS. fold t. destruct (child_of q dd) eqn:Hc.
     + intro Hn. rewrite Wpd_all by (rewrite Hc; apply orb_true_r). rewrite iC. apply is_dir_iff. exact Hn.
     + destruct (path_eqb q dd) eqn:Hq.
       * intros _. rewrite Wpd_all by (rewrite Hq; reflexivity). apply path_eqb_eq in Hq. subst q. exact Hex.
@@ -934,22 +975,22 @@ Proof.
   - (* du_kd *) exact Gd.
   - (* du_k2 *) exact G2.
   - (* du_ef *)
-    intros q i. rewrite nget_dir_sync. fold t. destruct (child_of q dd); [intro Hn; left; exact Hn|].
+    intros q i. rewrite NDS. fold t. destruct (child_of q dd); [intro Hn; left; exact Hn|].
     destruct (path_eqb q dd); [discriminate|]. apply H.
   - (* du_k *) exact I.
   - (* du_u *)
-    intros p q i. rewrite nget_dir_sync. fold t. destruct (child_of q dd).
+    intros p q i. rewrite NDS. fold t. destruct (child_of q dd).
     + intros Hq Hp. eapply iH; eauto.
     + destruct (path_eqb q dd); [discriminate|]. apply J.
   - (* du_u2 *)
-    intros p q i. rewrite !nget_dir_sync. fold t.
+    intros p q i. rewrite !NDS. fold t.
     destruct (child_of p dd); destruct (child_of q dd).
     + intros; eapply iH; eauto.
     + destruct (path_eqb q dd); [discriminate|]. intros Hp Hq. symmetry. eapply J; eauto.
     + destruct (path_eqb p dd); [discriminate|]. intros Hp Hq. eapply J; eauto.
     + destruct (path_eqb p dd); [discriminate|]. destruct (path_eqb q dd); [discriminate|]. apply K.
   - (* du_b *)
-    intros q i. rewrite nget_dir_sync. fold t. destruct (child_of q dd); [apply iI|].
+    intros q i. rewrite NDS. fold t. destruct (child_of q dd); [apply iI|].
     destruct (path_eqb q dd); [discriminate|]. apply L.
   - (* du_b2 *) exact M.
   - (* du_z1 *)
